@@ -29,7 +29,7 @@ META = {
         "pint/facets/system/registry.py::_get_base_units (base-unit cache under contexts)",
         "pint/util.py::find_shortest_path, find_connected_nodes",
     ],
-    "bounds": {"sequence length": "<= 3 operations (thorough 4), 'with c:' wraps the following operation", "alphabet": "enable(c) for c in c1..c5, enable(c1, n=v), disable(1), disable(all), with c:, with c: raise, enable(bad), with bad:, define(new unit)", "numbers": "all positive rationals (symbolic)"},
+    "bounds": {"sequence length": "<= 3 operations (thorough 4), 'with c:' wraps the following operation", "alphabet": "enable(c) for c in c1..c5, enable(c1, n=v), enable(), disable(0), disable(1), disable(2), disable(all), with (no context):, with c:, with c: raise, enable(bad), with bad:, define(new unit)", "numbers": "all positive rationals (symbolic)"},
     "enumerated_axes": [{"axis": "operation sequences", "exhaustive": True}],
     "outside_claim": ["sequences longer than the bound", "contexts whose parameters appear in more than one active context with different values other than through explicit keywords"],
     "assumptions": ["hash_mode=mixed: unbounded symbolic numbers (context parameters, scales) hash to a constant; equality of cache keys is then decided by __eq__ (sound under the hash contract)"],
@@ -61,6 +61,12 @@ def run_ops(eng, ureg, model, W, x, ops, pos, tag, shared, full):
         elif kind == "disable":
             ureg.disable_contexts(op[1])
             model.disable(op[1])
+        elif kind == "enable_none":
+            ureg.enable_contexts()
+        elif kind == "with_none":
+            # a with-block that names no context pushes nothing and pops nothing
+            with ureg.context():
+                probe(eng, ureg, model, x, t + "in", False)
         elif kind == "define":
             ureg.define(f"nu = {eng.lit(W.sn)} * m")
             model.late_units["nu"] = W.sn
@@ -164,6 +170,10 @@ def _alphabet():
     ops.append(("enable", "c2", 0))
     ops.append(("disable", 1))
     ops.append(("disable", None))
+    ops.append(("disable", 0))
+    ops.append(("disable", 2))
+    ops.append(("enable_none",))
+    ops.append(("with_none",))
     for c in ("c1", "c3", "c4"):
         ops.append(("with", c, None))
         ops.append(("with_raise", c, None))
